@@ -505,14 +505,16 @@ where
                         &salt,
                         self.vault.seed(),
                     )?;
-                    self.private_key =
-                        Some(PrivateKey::Symmetric(private_key));
-                    self.vault_meta().await
+                    self.verify_private_key(PrivateKey::Symmetric(
+                        private_key,
+                    ))
+                    .await
                 }
                 AccessKey::Identity(id) => {
-                    self.private_key =
-                        Some(PrivateKey::Asymmetric(id.clone()));
-                    self.vault_meta().await
+                    self.verify_private_key(PrivateKey::Asymmetric(
+                        id.clone(),
+                    ))
+                    .await
                 }
             }
         } else {
@@ -523,6 +525,37 @@ where
     fn lock(&mut self) {
         tracing::debug!(folder = %self.id(), "drop_private_key");
         self.private_key = None;
+    }
+}
+
+impl<E> AccessPoint<E>
+where
+    E: std::error::Error
+        + std::fmt::Debug
+        + From<crate::Error>
+        + From<sos_core::Error>
+        + From<std::io::Error>
+        + Send
+        + Sync
+        + 'static,
+{
+    /// Use a private key for this access point only when it
+    /// decrypts the vault meta data.
+    ///
+    /// A key that fails verification must not be kept otherwise
+    /// later writes would be encrypted with the wrong key.
+    async fn verify_private_key(
+        &mut self,
+        private_key: PrivateKey,
+    ) -> Result<VaultMeta, E> {
+        let previous = self.private_key.replace(private_key);
+        match self.vault_meta().await {
+            Ok(meta) => Ok(meta),
+            Err(e) => {
+                self.private_key = previous;
+                Err(e)
+            }
+        }
     }
 }
 
